@@ -228,7 +228,8 @@ def spmatrix_to_csc(pid):
 
 
 def solver_dispatch(pid, meth):
-    """Solver.solve / linsolve delegate to the selected worker with the same arguments and return its result."""
+    """Solver.solve / linsolve delegate to the selected worker with the caller's own A and b objects (the SuiteSparse workers leave
+    the solution in b: EIG._reduce and TDS._calc_h_first read it from there) and return the worker's result."""
     def worker(ex, st, args, kw, node):
         ex.oblige(st, 'pre@call:worker.%s:same-arguments' % meth, z3.BoolVal(args[0] is st.env['A'] and args[1] is st.env['b']), {})
         r = Opaque(fresh('x', VEC))
@@ -276,3 +277,32 @@ def replay_solvers(obligation, model, meta):
                             'observed': 'x = %r, residual %r' % (x.tolist(), float(np.max(np.abs(dense @ x - b))) if x.shape == (n,) else 'shape'),
                             'native_cmd': '%s().%s(A, b) over a sequence of matrices on one solver object' % (cls.__name__, mode)}
     return {'confirmed': False, 'tried': 30}
+
+
+
+def replay_dispatch(obligation, model, meta):
+    """native run of the real Solver wrapper (all libraries that solve in place): after linsolve(A, B) with a multi-column B, B holds
+    A^-1 B (this is how EIG._reduce obtains gy^-1 gx) and a one-column call returns x with A x = b; solve() likewise"""
+    import numpy as np
+    from kvxopt import spmatrix, matrix
+    from andes.linsolvers.solverbase import Solver
+    trip = [(0, 0, 4.0), (1, 1, 3.0), (2, 2, 5.0), (0, 1, 1.0), (2, 0, -1.0), (1, 2, 0.5)]
+    A = spmatrix([t[2] for t in trip], [t[0] for t in trip], [t[1] for t in trip], (3, 3), 'd')
+    dense = np.array(matrix(A))
+    B0 = np.array([[1.0, 2.0], [0.0, -1.0], [3.0, 0.5]])
+    for lib in ('klu', 'umfpack'):
+        s_ = Solver(lib)
+        B = matrix(B0)
+        s_.linsolve(A, B)
+        got = np.array(B)
+        if not np.allclose(dense @ got, B0, atol=1e-10):
+            return {'confirmed': True, 'inputs': {'sparselib': lib, 'A': trip, 'B': B0.tolist()},
+                    'observed': 'after Solver.linsolve(A, B) the matrix B is not A^-1 B (max error %g)' % float(np.max(np.abs(dense @ got - B0))),
+                    'native_cmd': "Solver('%s').linsolve(A, B) with a two-column kvxopt matrix B" % lib}
+        for meth in ('linsolve', 'solve'):
+            b = matrix(B0[:, 0])
+            x = np.ravel(np.array(getattr(Solver(lib), meth)(A, b)))
+            if x.shape != (3,) or not np.allclose(dense @ x, B0[:, 0], atol=1e-10):
+                return {'confirmed': True, 'inputs': {'sparselib': lib, 'call': meth, 'A': trip, 'b': B0[:, 0].tolist()},
+                        'observed': 'returned x = %r does not satisfy A x = b' % x.tolist(), 'native_cmd': "Solver('%s').%s(A, b)" % (lib, meth)}
+    return {'confirmed': False, 'tried': 6}
